@@ -64,11 +64,11 @@ class _BaseFrameField2DFaces(FrameField) :
         for e in self.feat.feature_edges:
             e1,e2 = self.mesh.edges[e] # the edge on border
             edge = self.mesh.vertices[e2] - self.mesh.vertices[e1]
-            for T in self.mesh.connectivity.edge_to_faces(e1,e2):
+            for T,sgn in zip(self.mesh.connectivity.edge_to_faces(e1,e2), (1,-1)): # the edge runs e1->e2 in the first face and e2->e1 in the second
                 if T is None: continue # edge may be on boundary
                 X,Y = self.conn.base(T)
-                c = complex(edge.dot(X), edge.dot(Y)) # compute edge in local basis coordinates (edge.dot(Z) = 0 -> complex number for 2D vector)
-                self.var[T] = (c/abs(c))**4 # c^4 is the same for all four directions of the cross
+                c = sgn*complex(edge.dot(X), edge.dot(Y)) # compute edge in local basis coordinates (edge.dot(Z) = 0 -> complex number for 2D vector)
+                self.var[T] = (c/abs(c))**self.order # c^order is the same for all the directions of the frame
 
     def _compute_attach_weight(self, A, fail_value=1e-3):
         # A is area weight matrix
